@@ -56,10 +56,13 @@ func genC19(g *Gen) {
 	null := SqlVal{T: "null"}
 	cellsOf := map[string][]SqlVal{
 		"int":    {mk("int", 1, "", ""), mk("int", -5, "", ""), mk("int", 0, "", ""), mk("int", 1 << 40, "", "")},
-		"float":  {mk("float", 0, "1.5", ""), mk("float", 0, "-0", ""), mk("float", 0, "NaN", ""), mk("float", 0, "+Inf", ""), null, null},
+		"float": {mk("float", 0, "1.5", ""), mk("float", 0, "-0", ""), mk("float", 0, "NaN", ""), mk("float", 0, "+Inf", ""), null, null,
+			mk("float", 0, "1.005", ""), mk("float", 0, "2.675", ""), mk("float", 0, "0.125", ""), mk("float", 0, "1234.5678", ""), mk("float", 0, "-0.004", ""),
+			mk("float", 0, "1e18", ""), mk("float", 0, "-1e300", ""), mk("float", 0, "5e-324", ""), mk("float", 0, "123456789.987654321", "")},
 		"bool":   {{T: "bool", B: true}, {T: "bool", B: false}},
 		"string": {mk("string", 0, "", "a"), mk("string", 0, "", ""), mk("bytes", 0, "", "raw\xff"), mk("string", 0, "", "1.25"), null, null},
-		"numstr": {mk("string", 0, "", "1.25"), mk("string", 0, "", "-3"), mk("string", 0, "", "1e3"), mk("string", 0, "", "NaN")},
+		"numstr": {mk("string", 0, "", "1.25"), mk("string", 0, "", "-3"), mk("string", 0, "", "1e3"), mk("string", 0, "", "NaN"),
+			mk("string", 0, "", "2.675"), mk("string", 0, "", "0.125"), mk("string", 0, "", "1234.56789"), mk("string", 0, "", "-0.0049"), mk("string", 0, "", "1e19"), mk("string", 0, "", "-Inf")},
 		"mixed":  {mk("int", 1, "", ""), mk("float", 0, "2.5", ""), mk("string", 0, "", "x"), null},
 		"nulls":  {null},
 	}
@@ -88,8 +91,8 @@ func genC19(g *Gen) {
 				conf.CoerceNames, conf.CoerceKinds = append(conf.CoerceNames, toBS(nm)), append(conf.CoerceKinds, 1+g.rng.Intn(2))
 			}
 		}
-		if g.rng.Intn(25) == 0 {
-			conf.Precision = 2
+		if g.rng.Intn(3) == 0 {
+			conf.Precision = []int{1, 2, 2, 3, 6}[g.rng.Intn(5)]
 		}
 		rows := [][]SqlVal{}
 		for i := 0; i < nr; i++ {
